@@ -57,7 +57,13 @@ func cmdSteps(args []string) error {
 		if err != nil {
 			return fmt.Errorf("expression %d: %v", i, err)
 		}
-		out = append(out, minBudget(t))
+		// the step counter of an unlimited parse (hook); without the hook, the smallest budget the public API accepts
+		installStepHook()
+		n := realParse([]byte(t), 0).Cnt
+		if n == 0 {
+			n = minBudget(t)
+		}
+		out = append(out, n)
 	}
 	return json.NewEncoder(os.Stdout).Encode(out)
 }
